@@ -102,49 +102,31 @@ def check_trend(ctx, wm: WeaverModel):
         res, st = ev.run_function(fi, pos=[x, y, fun, Const(normalized)])
         if ev.issues:
             raise AnalysisError(f"C14.3: trend not canonicalisable: {ev.issues[:3]}")
-        stores = [e for e in ev.events if e.kind == 'store']
         tag = f"normalized={normalized}"
-        ctx.check(len(stores) == 1, 'C14.3', f"trend ({tag}): exactly one in-place store per sample", f"{len(stores)} stores", fi.loc(), fi.qualname, f"trend:n:{normalized}")
-        for e in stores:
-            loops = e.loops
-            ok_loop = len(loops) == 1 and loops[0].kind in ('range', 'zip', 'iter') and loops[0].lo == C(0) and loops[0].hi is not None and loops[0].hi == L
-            ctx.check(ok_loop, 'C14.3', f"trend ({tag}): the loop visits every sample once (range(len(x)))",
-                      f"loops {[(l.kind, sym.show(l.lo) if l.lo is not None else None, sym.show(l.hi) if l.hi is not None else None) for l in loops]}",
-                      e.loc(), fi.qualname, f"trend:loop:{normalized}")
-            if not ok_loop:
-                continue
-            i = loops[0].sym
-            idx = e.data['index']
-            ctx.check(isinstance(idx, Num) and idx.r == i, 'C14.3', f"trend ({tag}): sample i is the one written", show(idx, 80), e.loc(), fi.qualname,
-                      f"trend:idx:{normalized}")
-            val = e.data['value']
-            base = e.data['base']
-            ok = False
-            detail = show(val, 300)
-            if isinstance(val, Num) and isinstance(base, Num):
-                old = base.at(i).r
-                inc = val.r - old
-                arg = x.at(i).r
-                if normalized:
-                    arg = arg / (x.at(L - C(1)).r - x.at(C(0)).r)
-                want = term_as_num(Term('apply', (fun, Num(arg))), False).r
-                # the increment is exactly fun(arg)
-                apps = [t for t in walk_vals(Num(inc)) if isinstance(t, Term) and t.head == 'apply']
-                ok = len(apps) == 1 and veq(apps[0].args[0], fun) and len(apps[0].args) == 2 and isinstance(apps[0].args[1], Num) \
-                    and apps[0].args[1].r == arg and inc == term_as_num(apps[0], False).r
-                detail = f"increment: {sym.show(inc)[:200]}; expected fun({sym.show(arg)[:120]})"
-            ctx.check(ok, 'C14.3', f"trend ({tag}): y[i] is increased by fun({'x[i]/(x[-1]-x[0])' if normalized else 'x[i]'})", detail, e.loc(), fi.qualname,
+        arg = x.r / (x.at(L - C(1)).r - x.at(C(0)).r) if normalized else x.r
+        want = Num(y.r + term_as_num(Term('apply', (fun, Num(arg))), False).r, L)
+        ok_pair = isinstance(res, Tup) and len(res.items) == 2
+        ctx.check(ok_pair and isinstance(res.items[0], Num) and res.items[0].r == x.r, 'C14.3', f"trend ({tag}): x is returned unchanged", show(res, 200), fi.loc(),
+                  fi.qualname, f"trend:x:{normalized}")
+        if not ok_pair:
+            continue
+        ry = res.items[1]
+        ryn = ry if isinstance(ry, Num) else (ev.as_num(ry, True) if isinstance(ry, Term) else None)
+        if ryn is not None and ryn.length is not None and ryn.r == want.r and ryn.length == L:
+            ctx.ok('C14.3', f"trend ({tag}): sample i of the result is y[i] + fun({'x[i]/(x[-1]-x[0])' if normalized else 'x[i]'}), for every i", show(ryn, 160), fi.loc(),
+                   fi.qualname, f"trend:val:{normalized}")
+        else:
+            from .common import foreign_heads
+            fh = foreign_heads(ry, want, allow=('apply',))
+            ctx.check(None if fh else False, 'C14.3', f"trend ({tag}): sample i of the result is y[i] + fun({'x[i]/(x[-1]-x[0])' if normalized else 'x[i]'}), for every i",
+                      (f"construction not recognised (uses {fh})\n" if fh else '') + f"code:     {show(ry, 300)}\nexpected: {show(want, 300)}", fi.loc(), fi.qualname,
                       f"trend:val:{normalized}")
-            ctx.check(bool(e.data.get('aug')) or ok, 'C14.3', f"trend ({tag}): the trend is added to the existing value", '', e.loc(), fi.qualname, f"trend:add:{normalized}")
-        ok_res = isinstance(res, Tup) and len(res.items) == 2 and isinstance(res.items[0], Num) and res.items[0].r == x.r
-        ctx.check(ok_res, 'C14.3', f"trend ({tag}): x is returned unchanged", show(res, 200), fi.loc(), fi.qualname, f"trend:x:{normalized}")
-        if isinstance(res, Tup) and len(res.items) == 2 and stores:
+        # the caller's y is not the array that is written (private copy): stores go into an array that is not the parameter object
+        for e in [e for e in ev.events if e.kind == 'store']:
             from ..rfa_model import strip_state
-            ctx.check(veq(strip_state(res.items[1]), strip_state(stores[0].data['base'])), 'C14.3', f"trend ({tag}): the array that was written is returned as y",
-                      show(res.items[1], 120), fi.loc(), fi.qualname, f"trend:y:{normalized}")
-            root = strip_state(stores[0].data['base'])
-            ctx.check(isinstance(root, Num) and root.r == y.r, 'C14.3', f"trend ({tag}): the working array starts as the values of y", show(root, 120), fi.loc(),
-                      fi.qualname, f"trend:y0:{normalized}")
+            root = strip_state(e.data['base'])
+            ctx.check(root is not y, 'C14.3', f"trend ({tag}): the trend is added to a private copy, not to the caller's array", show(root, 100), e.loc(), fi.qualname,
+                      f"trend:copy:{normalized}")
     # linear_trend
     lfi = ctx.prog.func(PROC + 'linear_trend')
     a = S('a')
